@@ -191,7 +191,7 @@ def event_sig(e):
         return ('op', e.get('op'), e.get('err'), cls, e.get('k', 0) == 0)
     return None
 
-def account_trace(ctx, tracefile, sig=None, sample_events=4, nontrivial=None):
+def account_trace(ctx, tracefile, sig=None, sample_events=4, trace_event='reset'):
     """Counts traces/events/distinct non-trivial cases of a trace file into the coverage record."""
     ntr = nev = 0
     cfg = None
@@ -205,7 +205,7 @@ def account_trace(ctx, tracefile, sig=None, sample_events=4, nontrivial=None):
             e = json.loads(ln)
         except ValueError:
             continue
-        if e.get('ev') == 'reset':
+        if e.get('ev') == trace_event:
             ntr += 1
         if e.get('ev') == 'op' and e.get('op') == 'Open' and 'cfg' in e:
             c = e['cfg']; cfg = (c.get('index'), c.get('shards'), c.get('io'), c.get('limit'), c.get('sync'))
@@ -257,7 +257,7 @@ def run_trace_family(ctx, fam, driver):
         args = list(fam.get('args', [])) + list(fam.get(ctx.tier + '_args', []))
         d = run_driver(ctx, driver, fam['profile'], tf, seed, args=args, timeout=fam.get('driver_timeout', 1500))
         res = validate(ctx, spec, tf, enforce, consts=fam.get('consts', ''), timeout=fam.get('tlc_timeout', 1500))
-        ntr, nev = account_trace(ctx, tf, sig=fam.get('sig'))
+        ntr, nev = account_trace(ctx, tf, sig=fam.get('sig'), trace_event=fam.get('trace_event', 'reset'))
         note_known(ctx, res['known_used'])
         ctx.cov['trace_runs'].append(dict(profile=fam['profile'], seed=seed, traces=ntr, events=nev, accepted=res['accepted'],
                                           driver_s=round(d['wall'], 1), tlc_s=round(res['wall'], 1), summary=d['summary']))
